@@ -53,7 +53,7 @@ def obligations(tier, scratch):
             name = f"s_{sid:02x}_n{n}{vt}_{tag}_c{cur}" + ("" if level is None else f"_l{level}")
             extra = "" if k is None else f"\n    pre: tail[0] % 128 == {k}"
             src.append(TEMPLATE.format(name=name, n=n - 1, sid=sid, off=repr(tuple(off)), cur=cur, level=level, extra=extra))
-            obs.append({"name": name, "module_path": path, "function": name, "cap": 400, "opaque": True, "twin_cap": 60,
+            obs.append({"name": name, "module_path": path, "function": name, "cap": 400 if n < 5 else 1800, "opaque": True, "twin_cap": 60,
                         "meta": {"service_id": hex(sid), "request_len": n, "switches_off": list(off), "active_session": cur,
                                  "security_level": level, "sub_function_mod_0x80": k}})
 
